@@ -141,10 +141,36 @@ func (r *VRec) NumOf(l *VLeaf) int64           { return l.Num }
 func (r *VRec) Swap(a *VLeaf, b *VLeaf) *VLeaf { a.Num, b.Num = b.Num, a.Num; return b }
 func (r *VRec) AreaOf(s VShape) int64          { return s.Area() }
 func (r *VRec) Nothing()                       {}
+func (r *VRec) WithI(n int64) *VRec            { r.I = n; return r }
+func (r *VRec) Bump() int64                    { r.I++; return r.I }
 
 type vC10Err struct{ code int64 }
 
 func (e vC10Err) Error() string { return "verif: failed on purpose" }
+
+// narrow and unsigned numeric fields
+type VNums struct {
+	F32 float32 `json:"f32"`
+	I8  int8    `json:"i8"`
+	I16 int16   `json:"i16"`
+	U8  uint8   `json:"u8"`
+	U64 uint64  `json:"u64"`
+	F64 float64 `json:"f64"`
+}
+
+// an outer struct that re-declares a field of the struct it embeds under the
+// same json tag: as in Go, the outer field is the one the name means
+type VSameBase struct {
+	ID    int64 `json:"id"`
+	Other int64 `json:"other"`
+}
+type VSame struct {
+	VSameBase
+	ID int64 `json:"id"`
+}
+
+func (r *VSame) GetID() int64         { return r.ID }
+func (r *VSame) Echo(x *VSame) *VSame { return x }
 
 // the map types the converter has cases for
 type VMaps struct {
@@ -187,6 +213,12 @@ func init() {
 	gsr.RegisterUserdef(&RegisteredType{GenDefMap: true, Factory: func(env *Zlisp, h *SexpHash) (interface{}, error) {
 		return &VMaps{}, nil
 	}}, true, "vmaps")
+	gsr.RegisterUserdef(&RegisteredType{GenDefMap: true, Factory: func(env *Zlisp, h *SexpHash) (interface{}, error) {
+		return &VNums{}, nil
+	}}, true, "vnums")
+	gsr.RegisterUserdef(&RegisteredType{GenDefMap: true, Factory: func(env *Zlisp, h *SexpHash) (interface{}, error) {
+		return &VSame{}, nil
+	}}, true, "vsame")
 	gsr.RegisterUserdef(&RegisteredType{GenDefMap: true, Factory: func(env *Zlisp, h *SexpHash) (interface{}, error) {
 		return &VDeep{}, nil
 	}}, true, "vdeep")
@@ -319,8 +351,35 @@ func vh_C10_fill() {
 func vh_C10_range() {
 	vFormatOpaque(true)
 	env := vC10Env(0)
-	k := vChoice("case", 6)
+	k := vChoice("case", 12)
 	switch k {
+	case 6, 7, 8, 9, 10: // any integer into float32, int8, int16, uint8, uint64 fields: refused, or the field holds exactly that number
+		v := &SexpInt{Val: vInt64("v")}
+		key := []string{"f32", "i8", "i16", "u8", "u64"}[k-6]
+		if _, ok := vC10Run(env, vT(env, `(def r (vnums `+key+`:9001)) (togo r)`, v)); ok {
+			g := vC10Hash(env, "r").GoShadowStruct.(*VNums)
+			switch k {
+			case 6:
+				vAssert(float64(g.F32) < 9223372036854775808.0 && int64(float64(g.F32)) == v.Val, "narrow-field-holds-the-record's-integer-or-the-conversion-fails")
+			case 7:
+				vAssert(int64(g.I8) == v.Val, "narrow-field-holds-the-record's-integer-or-the-conversion-fails")
+			case 8:
+				vAssert(int64(g.I16) == v.Val, "narrow-field-holds-the-record's-integer-or-the-conversion-fails")
+			case 9:
+				vAssert(int64(g.U8) == v.Val, "narrow-field-holds-the-record's-integer-or-the-conversion-fails")
+			case 10:
+				vAssert(v.Val >= 0 && g.U64 == uint64(v.Val), "narrow-field-holds-the-record's-integer-or-the-conversion-fails")
+			}
+		}
+	case 11: // a float into a float32 field narrows as Go's conversion does (rounding to nearest is not a loss the statement excludes); into float64 it is exact
+		// (concrete values: the engine does not encode float64 -> float32)
+		v := &SexpFloat{Val: []float64{0.1, 1.5, 16777217.0, 1e40, -2.5e-50, 3.4028234663852886e38}[vChoice("f", 6)]}
+		if _, ok := vC10Run(env, vT(env, `(def r (vnums f32:9001 f64:9001)) (togo r)`, v)); ok {
+			g := vC10Hash(env, "r").GoShadowStruct.(*VNums)
+			vAssert(g.F64 == v.Val && g.F32 == float32(v.Val), "float-fields-hold-the-float")
+		} else {
+			vAssert(false, "float-into-float-fields-converts")
+		}
 	case 5: // any integer into a float64 field: refused or held exactly
 		v := &SexpInt{Val: vInt64("v")}
 		if _, ok := vC10Run(env, vT(env, `(def r (vrec f:9001)) (togo r)`, v)); ok {
@@ -366,7 +425,7 @@ func vh_C10_range() {
 			vAssert(float64(g.I) == v.Val, "int-field-holds-the-float's-value-or-the-conversion-fails")
 		}
 	}
-	vReachIdx("range-case", k, 6)
+	vReachIdx("range-case", k, 12)
 }
 
 // the value kinds a script can put into a record field
@@ -1015,7 +1074,7 @@ func vh_C10_demo() {
 func vh_C10_embedded() {
 	vFormatOpaque(true)
 	env := vC10Env(0)
-	k := vChoice("shape", 2)
+	k := vChoice("shape", 3)
 	route := vChoice("route", 3)
 	var v [9]*SexpInt
 	for i := range v {
@@ -1025,6 +1084,12 @@ func vh_C10_embedded() {
 	case 0:
 		forms := vT(env, `(def x (vdeep low:9001 high:9002 step:9003 c1:9004 c2:9005 b1:9006 b2:9007 a1:9008 a2:9009)) (def o (vdeep a1:1))`,
 			v[0], v[1], v[2], v[3], v[4], v[5], v[6], v[7], v[8])
+		if _, ok := vC10Run(env, forms); !ok {
+			vAssert(false, "record-builds")
+			return
+		}
+	case 2:
+		forms := vT(env, `(def x (vsame id:9001 other:9002)) (def o (vsame id:1))`, v[0], v[1])
 		if _, ok := vC10Run(env, forms); !ok {
 			vAssert(false, "record-builds")
 			return
@@ -1050,12 +1115,22 @@ func vh_C10_embedded() {
 			g, ok := x.GoShadowStruct.(*VDeep)
 			vAssert(ok && g != nil && g.Low == v[0].Val && g.High == v[1].Val && g.Step == v[2].Val && g.C1 == v[3].Val && g.C2 == v[4].Val &&
 				g.B1 == v[5].Val && g.B2 == v[6].Val && g.A1 == v[7].Val && g.A2 == v[8].Val, "every-level-of-embedding-filled-exactly")
-		} else {
+		} else if k == 1 {
 			g, ok := x.GoShadowStruct.(*VShadow)
 			vAssert(ok && g != nil && g.ID == v[0].Val && g.VShBase.ID == v[1].Val && g.Only == v[2].Val, "shadowed-and-shadowing-fields-filled-exactly")
+		} else {
+			g, ok := x.GoShadowStruct.(*VSame)
+			vAssert(ok && g != nil && g.ID == v[0].Val && g.Other == v[1].Val && g.VSameBase.ID == 0, "a-name-declared-twice-means-the-outer-field")
+			back, okb := vC10Back(env, `(_method x GetID:)`)
+			bi, isInt := back.(*SexpInt)
+			vAssert(okb && isInt && bi.Val == v[0].Val, "go-method-sees-the-outer-field")
 		}
 	case 1:
-		back, ok := vC10Back(env, `(_method x Self:)`)
+		call := `(_method x Self:)`
+		if k == 2 {
+			call = `(_method x Echo: x)`
+		}
+		back, ok := vC10Back(env, call)
 		vAssert(ok, "method-returning-a-struct-with-embedded-fields-succeeds")
 		if ok {
 			vAssert(vC10Same(env, x, back), "embedded-struct-fields-come-back-under-their-own-keys")
@@ -1067,7 +1142,7 @@ func vh_C10_embedded() {
 			vAssert(vC10Same(env, x, back), "embedded-struct-fields-come-back-under-their-own-keys")
 		}
 	}
-	vReachIdx("embedded-shape", k, 2)
+	vReachIdx("embedded-shape", k, 3)
 }
 
 // vh_C10_history: a record that already has a Go struct attached (it went
@@ -1176,8 +1251,42 @@ func vh_C10_methods() {
 		}
 		return arr.Val, true
 	}
-	k := vChoice("method", 12)
+	k := vChoice("method", 14)
 	switch k {
+	case 12: // a method that changes its receiver and hands it back: the record that comes back shows the Go struct as it is now
+		out, ok := call(`(_method o WithI: (hget l2 num:))`)
+		vAssert(ok && len(out) == 1, "mutated-receiver-comes-back")
+		if ok && len(out) == 1 {
+			h, isH := out[0].(*SexpHash)
+			vAssert(isH && h.TypeName == "vrec", "struct-result-is-a-record-of-its-type")
+			if isH {
+				iv, e1 := h.HashGet(env, env.MakeSymbol("i"))
+				ii, oki := iv.(*SexpInt)
+				vAssert(e1 == nil && oki && ii.Val == b.Val, "record-handed-back-has-the-go-struct's-current-values")
+			}
+		}
+		out2, ok2 := call(`(_method o GetI:)`)
+		vAssert(ok2 && len(out2) == 1, "later-call-on-the-receiver-succeeds")
+		if ok2 && len(out2) == 1 {
+			x, okx := out2[0].(*SexpInt)
+			vAssert(okx && x.Val == b.Val, "later-calls-see-the-go-side-change")
+		}
+	case 13: // a method that changes its receiver: later calls act on the same Go object
+		o1, ok1 := call(`(_method o Bump:)`)
+		o2, ok2 := call(`(_method o Bump:)`)
+		o3, ok3 := call(`(_method o Self:)`)
+		vAssert(ok1 && ok2 && ok3 && len(o1) == 1 && len(o2) == 1 && len(o3) == 1, "calls-succeed")
+		if ok1 && ok2 && ok3 && len(o1) == 1 && len(o2) == 1 && len(o3) == 1 {
+			x1, _ := o1[0].(*SexpInt)
+			x2, _ := o2[0].(*SexpInt)
+			h, isH := o3[0].(*SexpHash)
+			vAssert(x1 != nil && x2 != nil && x1.Val == ri.Val+1 && x2.Val == ri.Val+2, "receiver-is-one-go-object-across-calls")
+			if isH {
+				iv, _ := h.HashGet(env, env.MakeSymbol("i"))
+				ii, oki := iv.(*SexpInt)
+				vAssert(oki && ii.Val == ri.Val+2, "record-handed-back-has-the-go-struct's-current-values")
+			}
+		}
 	case 0:
 		out, ok := call(`(_method o Pair: (hget l1 num:) ss)`)
 		vAssert(ok && len(out) == 2, "two-results-come-back-as-two-elements")
@@ -1270,7 +1379,7 @@ func vh_C10_methods() {
 	r3, isInt := res.(*SexpInt)
 	vAssert(!p2 && err2 == nil && isInt && r3.Val == 3, "interpreter-usable-afterwards")
 	vC04AtRest(env, "after-method-call")
-	vReachIdx("method", k, 12)
+	vReachIdx("method", k, 14)
 }
 
 // vh_C10_maps: map-typed fields (string->string, string->float64,
